@@ -89,7 +89,7 @@ var allVariants = []string{"mpegts", "fmp4", "ll"}
 
 func scC04(r *Run) {
 	runMuxSeq(r, &muxSeqOpts{
-		gen:        muxGen{variants: allVariants, minCalls: 200, maxCalls: 1500, fastRotation: true, paramChanges: true, negativeStart: true},
+		gen:        muxGen{variants: allVariants, minCalls: 200, maxCalls: 1500, fastRotation: true, paramChanges: true, negativeStart: true, reorder: true},
 		oracle:     func(w *muxWorld) { w.obs.oracleC04(r) },
 		checkDelta: true,
 	})
@@ -97,7 +97,7 @@ func scC04(r *Run) {
 
 func scC05(r *Run) {
 	runMuxSeq(r, &muxSeqOpts{
-		gen:    muxGen{variants: allVariants, minCalls: 100, maxCalls: 600, fastRotation: true, paramChanges: true, negativeStart: true, allowZeroDur: true},
+		gen:    muxGen{variants: allVariants, minCalls: 100, maxCalls: 600, fastRotation: true, paramChanges: true, negativeStart: true, allowZeroDur: true, reorder: true},
 		oracle: func(w *muxWorld) { w.obs.oracleC05(r) },
 		query:  true,
 	})
@@ -116,7 +116,7 @@ func init() {
 
 func scC01(r *Run) {
 	runMuxSeq(r, &muxSeqOpts{
-		gen: muxGen{variants: allVariants, minCalls: 50, maxCalls: 400, paramChanges: true, negativeStart: true, allowZeroDur: true},
+		gen: muxGen{variants: allVariants, minCalls: 50, maxCalls: 400, paramChanges: true, negativeStart: true, allowZeroDur: true, reorder: true},
 		oracle: func(w *muxWorld) {
 			w.obs.reportProblems(r, "grammar", "blocked", "fetch")
 			if !r.Failed() {
@@ -128,7 +128,7 @@ func scC01(r *Run) {
 
 func scC02(r *Run) {
 	runMuxSeq(r, &muxSeqOpts{
-		gen: muxGen{variants: allVariants, minCalls: 50, maxCalls: 400, paramChanges: true, negativeStart: true},
+		gen: muxGen{variants: allVariants, minCalls: 50, maxCalls: 400, paramChanges: true, negativeStart: true, reorder: true},
 		oracle: func(w *muxWorld) {
 			w.obs.reportProblems(r, "grammar", "blocked", "fetch")
 			if !r.Failed() {
@@ -140,7 +140,7 @@ func scC02(r *Run) {
 
 func scC03(r *Run) {
 	runMuxSeq(r, &muxSeqOpts{
-		gen: muxGen{variants: allVariants, minCalls: 50, maxCalls: 400, paramChanges: true, negativeStart: true},
+		gen: muxGen{variants: allVariants, minCalls: 50, maxCalls: 400, paramChanges: true, negativeStart: true, reorder: true},
 		oracle: func(w *muxWorld) {
 			w.obs.reportProblems(r, "grammar", "blocked", "fetch")
 			if !r.Failed() {
@@ -164,7 +164,7 @@ func init() {
 
 func scC16(r *Run) {
 	runMuxSeq(r, &muxSeqOpts{
-		gen:   muxGen{variants: allVariants, minCalls: 40, maxCalls: 250, paramChanges: true, negativeStart: true},
+		gen:   muxGen{variants: allVariants, minCalls: 40, maxCalls: 250, paramChanges: true, negativeStart: true, reorder: true},
 		query: true,
 		oracle: func(w *muxWorld) {
 			w.obs.reportProblems(r, "grammar", "blocked", "fetch")
